@@ -201,11 +201,11 @@ def _alarm(signum, frame):
 @contextlib.contextmanager
 def time_limit(sec):
     old = signal.signal(signal.SIGALRM, _alarm)
-    signal.alarm(sec)
+    signal.setitimer(signal.ITIMER_REAL, sec, 0.2)     # repeats: an alarm swallowed inside a callback must not disarm the limit
     try:
         yield
     finally:
-        signal.alarm(0)
+        signal.setitimer(signal.ITIMER_REAL, 0, 0)
         signal.signal(signal.SIGALRM, old)
 
 
@@ -467,6 +467,8 @@ def make_jail(base, var):
 
 
 ERR_PATTERNS = [("Unsupported binary artifact", "unsupportedArtifact"), ("invalid hard link in archive", "invalidHardLink"),
+                ("contained invalid file name", "filterName"), ("contained file outside of workspace", "filterParent"),
+                ("unsafe hard link in archive", "filterLink"),
                 ("Binary artifact contained unknown file", "unknownFile"), ("Refusing to extract", "filter"),
                 ("Error removing", "removeError")]
 
@@ -682,6 +684,9 @@ def check_fidelity(ctx, work, seed):
             with time_limit(30):
                 TarHelper()._extract(io.BytesIO(buf.getvalue()), audit_dst, dst)
             err = None
+        except _Timeout:
+            ctx.skip("a pack/extract round trip hit the 30 s limit (machine load)")
+            return
         except Exception as e:  # noqa
             err = "%s: %s" % (type(e).__name__, e)
     finally:
@@ -715,21 +720,25 @@ def check_fidelity(ctx, work, seed):
 
 # ====================================================================== oracle
 
-def oracle_fidelity(ctx):
+def oracle_fidelity(ctx, frac=0.18):
+    import time
     r = ctx.subrng("fidelity")
     work = os.path.join(scratch_dir(ctx), "fid")
     for i in range(ctx.scale(200, 10000)):
-        if ctx.time_left() < ctx.budget * 0.75:
+        if time.time() > phase_deadline(ctx, frac):
+            ctx.skip("fidelity stream stopped after %d trees (time budget / machine load)" % i) if i < 100 else None
             break
         check_fidelity(ctx, work, r.getrandbits(48))
     shutil.rmtree(work, ignore_errors=True)
 
 
-def oracle_hostile(ctx, tag, n, stop_frac):
+def oracle_hostile(ctx, tag, n, frac):
+    import time
     r = ctx.subrng(tag)
     base = os.path.join(scratch_dir(ctx), "jail-" + tag)
     for i in range(n):
-        if ctx.time_left() < ctx.budget * stop_frac:
+        if time.time() > phase_deadline(ctx, frac):
+            ctx.skip("hostile archive stream stopped after %d archives (time budget / machine load)" % i) if i < n // 3 else None
             break
         var = gen_jail_variant(r)
         jail = os.path.join(base, PAD, "jail")
@@ -744,14 +753,539 @@ def oracle_hostile(ctx, tag, n, stop_frac):
 
 
 def oracle(ctx):
-    oracle_fidelity(ctx)
-    oracle_hostile(ctx, "hostile", ctx.scale(1500, 60000), 0.55)
+    try:
+        oracle_fidelity(ctx)
+        oracle_hostile(ctx, "hostile", ctx.scale(1500, 60000), 0.38)
+        ctx._c08_dl = oracle_corruption(ctx)
+    finally:
+        drop_scratch(ctx)
 
 
 def replay(ctx, case):
     k = case.get("kind")
     if k == "fidelity":
         check_fidelity(ctx, os.path.join(scratch_dir(ctx), "fid"), case["tree_seed"])
+    elif k is None and "spec" in case:
+        res = corruption_worker((os.path.join(scratch_dir(ctx), "dl-replay"), case["tree_seed"], [tuple(case["spec"])]))
+        for x in res:
+            x["tree_seed"] = case["tree_seed"]
+            judge_corruption(ctx, x, "replay")
+        drop_scratch(ctx)
     elif k == "hostile":
         check_confined(ctx, os.path.join(scratch_dir(ctx), "jail-replay"), case["members"], case["vsn"], case["jail"])
     drop_scratch(ctx)
+
+
+# ====================================================================== correspondence with the Lean model
+
+FUEL = 400
+CFG_ASIS = {"fuel": FUEL, "canon": False, "parent": False, "lnk": 0}
+CFG_REPAIRED = {"fuel": FUEL, "canon": True, "parent": True, "lnk": 2}
+
+
+def model_cfg(ctx):
+    """the dispatch of the current source: `Cfg.current` of the model, built from Generated/ConstsC08.lean, which
+    tools/consts/c08.py regenerates from the source on every run"""
+    return {"fuel": FUEL, "current": True}
+
+
+def fs_request(base, snap):
+    """model file system (rooted at /) of the sandbox `base` with snapshot `snap`"""
+    root = [c for c in base.split("/") if c]
+    names = [{"p": root[:i], "t": "dir", "mode": 0o755} for i in range(len(root) + 1)]
+    inodes = {}
+    for rel, v in snap.items():
+        p = root + rel.split("/")
+        if v[0] == "dir":
+            names.append({"p": p, "t": "dir", "mode": v[1]})
+            continue
+        if v[0] == "sym":
+            ino, rec = v[2], {"t": "sym", "target": v[1], "mode": 0o777}
+        elif v[0] == "reg":
+            data = v[2]
+            rec = {"t": "file", "data": data.decode("utf-8") if isinstance(data, bytes) else data, "mode": v[1]}
+            ino = v[3]
+        elif v[0] == "fifo":
+            ino, rec = v[2], {"t": "fifo", "mode": v[1]}
+        elif v[0] == "dev":
+            ino, rec = v[3], {"t": "chr", "mode": v[1]}
+        else:
+            raise AssertionError(v)
+        k = inodes.setdefault(ino, dict(rec, ino=len(inodes) + 1))
+        names.append({"p": p, "t": "ref", "ino": k["ino"]})
+    return {"names": names, "inodes": list(inodes.values()), "next": len(inodes) + 1}
+
+
+def model_structural(base, reply):
+    """the model's resulting tree in the form of `structural(snapshot(base))`"""
+    root = [c for c in base.split("/") if c]
+    inodes = {i["ino"]: i for i in reply["inodes"]}
+    ent, groups = {}, {}
+    for n in reply["names"]:
+        p = n["p"]
+        if p[:len(root)] != root or len(p) == len(root):
+            if n["t"] != "dir":
+                ent["<outside-sandbox>/" + "/".join(p)] = ("?",)
+            continue
+        rel = "/".join(p[len(root):])
+        if n["t"] == "dir":
+            ent[rel] = ("dir", n["mode"])
+            continue
+        i = inodes[n["ino"]]
+        groups.setdefault(n["ino"], []).append(rel)
+        if i["t"] == "file":
+            ent[rel] = ("reg", i["mode"], i["data"].encode("utf-8"))
+        elif i["t"] == "sym":
+            ent[rel] = ("sym", i["target"])
+        elif i["t"] == "fifo":
+            ent[rel] = ("fifo", i["mode"])
+        else:
+            ent[rel] = ("dev", i["mode"])
+    return ent, sorted(sorted(g) for g in groups.values() if len(g) > 1)
+
+
+OUTSIDE_MODEL = {"err:tarerror", "err:internal:RecursionError", "err:internal:AttributeError", "err:removeError"}
+
+
+TYPE_NAMES = {tarfile.REGTYPE: "reg", tarfile.AREGTYPE: "reg", tarfile.DIRTYPE: "dir", tarfile.SYMTYPE: "sym", tarfile.LNKTYPE: "lnk",
+              tarfile.FIFOTYPE: "fifo", tarfile.CHRTYPE: "chr"}
+
+
+def members_as_read(data):
+    """the member list and pax version as the (trusted) tar reader presents them to Bob's dispatch"""
+    out = []
+    with tarfile.open(fileobj=io.BytesIO(data), mode="r:*") as tar:
+        vsn = tar.pax_headers.get("bob-archive-vsn")
+        for ti in tar:
+            t = TYPE_NAMES.get(ti.type)
+            if t is None:
+                return None, None
+            d = tar.extractfile(ti).read().decode("utf-8") if t == "reg" else ""
+            out.append({"name": ti.name, "type": t, "link": ti.linkname if t in ("sym", "lnk") else "", "mode": ti.mode, "data": d})
+    return out, vsn
+
+
+def correspond_hostile(ctx, n):
+    r = ctx.subrng("corr-hostile")
+    base = os.path.join(scratch_dir(ctx), "jail-corr")
+    cfg = model_cfg(ctx)
+    reqs, impls, cases = [], [], []
+    for i in range(n):
+        if __import__("time").time() > phase_deadline(ctx, 0.88):
+            ctx.skip("hostile correspondence stopped after %d archives (time budget / machine load)" % i) if i < n // 3 else None
+            break
+        var = gen_jail_variant(r)
+        jail = os.path.join(base, PAD, "jail")
+        members, vsn = gen_hostile(r, jail)
+        if any(ord(ch) > 0xffff for m in members for ch in m["name"] + m["link"]):
+            continue
+        res = run_hostile(base, members, vsn, var)
+        if res is None or res[0] == "err:timeout":
+            continue
+        out, before, after, ws_rel, audit_rel, jail = res
+        _, dest, audit, _, _ = jail_paths(base, var)
+        seen, seen_vsn = members_as_read(build_archive(members, vsn))
+        if seen is None:
+            continue
+        req = {"op": "extract", "setup": True, "cfg": cfg, "dest": [c for c in dest.split("/") if c],
+               "audit": [c for c in audit.split("/") if c], "vsn": seen_vsn, "members": seen}
+        req.update(fs_request(base, before))
+        reqs.append(req)
+        impls.append((out, structural(after)))
+        cases.append({"kind": "hostile", "members": members, "vsn": vsn, "jail": var})
+    shutil.rmtree(base, ignore_errors=True)
+    replies = ctx.lean(DRIVER, reqs) if reqs else []
+    for c, (out, (ent, groups)), rep in zip(cases, impls, replies):
+        ctx.case(("corr", canon_members(c["members"]), c["vsn"], sorted(c["jail"].items())),
+                 nontrivial=any(m["name"].startswith("content/") for m in c["members"]))
+        mout = rep["out"]
+        ctx.count("corr_model_outcome", mout)
+        if mout == "err:unsupported":
+            ctx.count("corr_unsupported_impl_outcome", out)
+            continue
+        if out in OUTSIDE_MODEL:
+            ctx.disagree("TarHelper._extract outcome == Model.extractAll outcome", c, out, mout)
+            continue
+        ment, mgroups = model_structural(base, rep)
+        if out.replace("err:internal:TypeError", "err:internal") != mout:
+            ctx.disagree("TarHelper._extract outcome == Model.extractAll outcome", c, out, mout)
+        elif ent != ment:
+            d = {k: (ent.get(k), ment.get(k)) for k in sorted(set(ent) | set(ment)) if ent.get(k) != ment.get(k)}
+            ctx.disagree("tree after TarHelper._extract == tree after Model.extractAll", c,
+                         {k: repr(v[0]) for k, v in list(d.items())[:4]}, {k: repr(v[1]) for k, v in list(d.items())[:4]})
+        elif groups != mgroups:
+            ctx.disagree("hard link groups after TarHelper._extract == Model.extractAll", c, groups[:4], mgroups[:4])
+        else:
+            ctx.trace_validated(1)
+
+
+def jail_paths(base, var):
+    jail = os.path.join(base, PAD, "jail")
+    distname = "alias" if var["alias"] else "dist"
+    rel = os.path.relpath(jail, base)
+    return (jail, os.path.join(jail, distname, "workspace"), os.path.join(jail, distname, "audit.json.gz"),
+            os.path.join(rel, "dist", "workspace"), os.path.join(rel, "dist", "audit.json.gz"))
+
+
+def correspond_accept(ctx):
+    """the builder's acceptance decision vs. Model.acceptDownload on what was observed after each download"""
+    results = getattr(ctx, "_c08_dl", None) or []
+    reqs, sel = [], []
+    for res in results:
+        o = res["obs"]
+        if res["out"] in ("accepted", "not-downloaded", "rejected:missingAudit", "rejected:corrupt") and o["auditHash"] != "unreadable":
+            reqs.append({"op": "accept", "wasDownloaded": o["wasDownloaded"], "auditExists": o["auditExists"], "auditHash": o["auditHash"],
+                         "workspaceHash": o["workspaceHash"]})
+            sel.append(res)
+        elif o["wasDownloaded"] and o["auditExists"] and o["auditHash"] != "unreadable":
+            # extraction succeeded and the audit is readable: the verdict must be one of the three modelled ones
+            ctx.disagree("LocalBuilder._downloadPackage verdict == Model.acceptDownload", res, res["out"], "accepted|missingAudit|corrupt")
+    for res, rep in zip(sel, ctx.lean(DRIVER, reqs) if reqs else []):
+        want = {"accepted": ("ok", res["obs"]["workspaceHash"]), "not-downloaded": ("ok", None),
+                "rejected:missingAudit": ("err", "missingAudit"), "rejected:corrupt": ("err", "corrupt")}[res["out"]]
+        got = ("ok", rep["ok"]) if "ok" in rep else ("err", rep["err"])
+        ctx.case(("accept", res["spec"], res["expect"]))
+        ctx.count("accept_model", "%s:%s" % (got[0], got[1] if got[0] == "err" else ("hash" if got[1] else "none")))
+        if got != want:
+            ctx.disagree("LocalBuilder._downloadPackage verdict == Model.acceptDownload", res, list(want), list(got))
+        else:
+            ctx.trace_validated(1)
+
+
+def correspond(ctx):
+    try:
+        correspond_hostile(ctx, ctx.scale(2500, 100000))
+        correspond_accept(ctx)
+    finally:
+        drop_scratch(ctx)
+
+
+# ====================================================================== (iii) corruption through the builder's download path
+
+import concurrent.futures
+
+
+class _SyncExecutor(concurrent.futures.Executor):
+    """runs the archive worker functions in the calling thread (they install signal handlers)"""
+    def submit(self, fn, *a, **k):
+        f = concurrent.futures.Future()
+        try:
+            f.set_result(fn(*a, **k))
+        except BaseException as e:  # noqa - transported to the awaiting coroutine
+            f.set_exception(e)
+        return f
+
+
+class _Recipe:
+    def getLayer(self):
+        return []
+
+    def getName(self):
+        return "pkg"
+
+    def getPackageName(self):
+        return "pkg"
+
+
+class _Pkg:
+    def getRecipe(self):
+        return _Recipe()
+
+    def getName(self):
+        return "pkg"
+
+    def getStack(self):
+        return ["pkg"]
+
+
+class _Step:
+    """the part of a package step that LocalBuilder._downloadPackage and the archive look at"""
+    JENKINS = False
+
+    def __init__(self, ws, vid):
+        self.ws, self.vid = ws, vid
+
+    def getPackage(self):
+        return _Pkg()
+
+    def getWorkspacePath(self):
+        return self.ws
+
+    def getStoragePath(self):
+        return self.ws
+
+    def getVariantId(self):
+        return self.vid
+
+    def isCheckoutStep(self):
+        return False
+
+    def isPackageStep(self):
+        return True
+
+    def getLabel(self):
+        return "dist"
+
+
+def small_tree(r, root):
+    os.makedirs(root)
+    os.makedirs(os.path.join(root, "d", "empty"))
+    for i in range(r.randrange(1, 4)):
+        p = os.path.join(root, r.choice(["", "d"]), "f%d" % i)
+        with open(p, "wb") as f:
+            f.write(bytes(r.getrandbits(8) for _ in range(r.choice([0, 3, 20, 120]))))
+        os.chmod(p, r.choice([0o644, 0o755, 0o600]))
+    os.symlink(r.choice(["d/f0", "nowhere", "d"]), os.path.join(root, "ln"))
+    fs = [os.path.join(dp, f) for dp, _, fl in os.walk(root) for f in fl if not os.path.islink(os.path.join(dp, f))]
+    if fs:
+        os.link(fs[0], os.path.join(root, "hard"))
+
+
+def audit_semantic(path):
+    with gzip.open(path, "rb") as f:
+        return json.load(f)
+
+
+def _dl_kind(e):
+    from bob.errors import BuildError, ParseError, BobError
+    if isinstance(e, BobError):
+        msg = str(e.slogan)
+        for pat, kind in [("misses its audit trail", "missingAudit"), ("Corrupt downloaded artifact", "corrupt"),
+                          ("Error extracting binary artifact", "extract"), ("Cannot download artifact", "download"),
+                          ("Unsupported binary artifact", "unsupportedArtifact"), ("unknown file", "unknownFile"),
+                          ("audit", "auditUnreadable"), ("Audit", "auditUnreadable")]:
+            if pat in msg:
+                return "rejected:" + kind
+        return "rejected:other"
+    return "failed:" + type(e).__name__
+
+
+def corruption_worker(job):
+    """runs in a forked worker: own cwd, own BobState.  job = (dir, tree_seed, specs) -> list of result dicts"""
+    import random
+    import bob.state
+    import bob.tty
+    from bob.archive import LocalArchive
+    from bob.audit import Audit
+    from bob.builder import LocalBuilder
+    from bob.state import BobState
+    from bob.utils import hashDirectory, runInEventLoop
+    wdir, tree_seed, specs = job[:3]
+    deadline = job[3] if len(job) > 3 else None
+    shutil.rmtree(wdir, ignore_errors=True)
+    os.makedirs(wdir)
+    oldcwd = os.getcwd()
+    os.chdir(wdir)
+    old_umask = os.umask(UMASK)
+    devnull = open(os.devnull, "w")
+    results = []
+    try:
+        with contextlib.redirect_stdout(devnull):
+            r = random.Random(tree_seed)
+            src = os.path.join(wdir, "src", "workspace")
+            os.makedirs(os.path.dirname(src))
+            small_tree(r, src)
+            h = hashDirectory(src)
+            vid, bid = bytes(r.getrandbits(8) for _ in range(20)), bytes(r.getrandbits(8) for _ in range(20))
+            audit_src = os.path.join(wdir, "src", "audit.json.gz")
+            Audit.create(vid, bid, h).save(audit_src)
+            audit_sem = audit_semantic(audit_src)
+            ex = _SyncExecutor()
+            arch = LocalArchive({"path": os.path.join(wdir, "archive"), "flags": ["download", "upload"]})
+            arch.wantUploadLocal(True)
+            arch.wantDownloadLocal(True)
+            runInEventLoop(arch.uploadPackage(_Step(src, vid), bid, audit_src, src, executor=ex))
+            art_path = arch._remoteName(bid, ".tgz")
+            with open(art_path, "rb") as f:
+                art = f.read()
+            # a second tree / audit for mismatching combinations
+            src2 = os.path.join(wdir, "src2", "workspace")
+            os.makedirs(os.path.dirname(src2))
+            small_tree(random.Random(tree_seed + 1), src2)
+            with open(os.path.join(src2, "extra"), "w") as f:
+                f.write("x")
+            builder = LocalBuilder(0, False, False, False, False, [], wdir, False, True)
+            builder.setArchiveHandler(arch)
+            builder.setLocalDownloadMode("yes")
+            builder.setExecutor(ex)
+            rec = {}
+            orig = arch.downloadPackage
+
+            async def wrapped(*a, **k):
+                ret = await orig(*a, **k)
+                rec["wasDownloaded"] = ret
+                return ret
+            arch.downloadPackage = wrapped
+
+            def variant(spec):
+                k = spec[0]
+                if k == "intact":
+                    return art
+                if k == "truncfrac":          # every prefix length (the job lists more lengths than the artifact has)
+                    return art[:spec[1]] if spec[1] < len(art) else None
+                if k == "flipfrac":
+                    b = bytearray(art)
+                    b[int(spec[1] * len(art))] ^= 1 << spec[2]
+                    return bytes(b)
+                if k == "raw":
+                    return bytes.fromhex(spec[1])
+                if k == "plain-tar":
+                    return gzip.decompress(art)
+                if k == "xz":
+                    import lzma
+                    return lzma.compress(gzip.decompress(art))
+                if k == "repack":
+                    # a well-formed artifact made by the real _pack from (audit of tree 1, content of tree 2 / modified tree 1)
+                    from bob.archive import TarHelper
+                    mod = os.path.join(wdir, "mod", "workspace")
+                    shutil.rmtree(os.path.dirname(mod), ignore_errors=True)
+                    shutil.copytree(src2 if spec[1] == "other" else src, mod, symlinks=True)
+                    if spec[1] == "mode":
+                        p = os.path.join(mod, "d")
+                        os.chmod(p, 0o700)
+                    elif spec[1] == "content":
+                        with open(os.path.join(mod, "ln2"), "w") as f:
+                            f.write("added")
+                    elif spec[1] == "link":
+                        os.unlink(os.path.join(mod, "ln"))
+                        os.symlink("elsewhere", os.path.join(mod, "ln"))
+                    buf = io.BytesIO()
+                    TarHelper()._pack(None, buf, audit_src, mod)
+                    return buf.getvalue()
+                if k == "no-audit":
+                    buf = io.BytesIO()
+                    with tarfile.open(fileobj=io.BytesIO(art), mode="r:*") as tin, gzip.GzipFile(fileobj=buf, mode="wb", mtime=0) as gz, \
+                            tarfile.open(None, "w", fileobj=gz, format=tarfile.PAX_FORMAT, pax_headers={"bob-archive-vsn": "1"}) as tout:
+                        for ti in tin:
+                            if ti.name != "meta/audit.json.gz":
+                                tout.addfile(ti, tin.extractfile(ti) if ti.isreg() else None)
+                    return buf.getvalue()
+                raise AssertionError(spec)
+
+            for n, spec in enumerate(specs):
+                if deadline is not None and __import__("time").time() > deadline:
+                    break
+                data = variant(spec)
+                if data is None:
+                    continue
+                with open(art_path, "wb") as f:
+                    f.write(data)
+                ws = os.path.join(wdir, "work", "pkg", "dist", str(n), "workspace")
+                audit = os.path.join(os.path.dirname(ws), "audit.json.gz")
+                if spec[0] == "no-audit" or (spec[0] in ("truncfrac", "flipfrac") and n % 7 == 0):
+                    # a stale audit trail of an earlier download must not validate anything
+                    os.makedirs(os.path.dirname(ws))
+                    shutil.copy(audit_src, audit)
+                rec.clear()
+                t0 = __import__("time").time()
+                try:
+                    with time_limit(30):
+                        ret = runInEventLoop(builder._downloadPackage(_Step(ws, vid), 0, bid))
+                    out = "accepted" if ret[0] else "not-downloaded"
+                except BaseException as e:  # noqa - classified
+                    if isinstance(e, (KeyboardInterrupt, SystemExit)):
+                        raise
+                    out = _dl_kind(e)
+                obs = {"wasDownloaded": bool(rec.get("wasDownloaded")), "auditExists": os.path.exists(audit)}
+                try:
+                    obs["workspaceHash"] = hashDirectory(ws).hex() if os.path.isdir(ws) else ""
+                except Exception:  # noqa
+                    obs["workspaceHash"] = "?"
+                try:
+                    sem = audit_semantic(audit) if obs["auditExists"] else None
+                    obs["auditHash"] = sem["artifact"]["result-hash"] if sem else ""
+                except Exception:  # noqa
+                    sem, obs["auditHash"] = None, "unreadable"
+                recorded = BobState().getResultHash(ws)
+                res = {"spec": list(spec), "out": out, "obs": obs, "identical": data == art,
+                       "tree_ok": obs["workspaceHash"] == h.hex(), "audit_ok": sem == audit_sem,
+                       "recorded": recorded.hex() if recorded is not None else None, "expect": h.hex(), "len": len(art),
+                       "secs": round(__import__("time").time() - t0, 3)}
+                results.append(res)
+                shutil.rmtree(os.path.join(wdir, "work"), ignore_errors=True)
+    finally:
+        try:
+            bob.state.finalize()
+        except Exception:  # noqa
+            pass
+        os.umask(old_umask)
+        os.chdir(oldcwd)
+        devnull.close()
+        shutil.rmtree(wdir, ignore_errors=True)
+    return results
+
+
+RAW_FORMATS = [b"", b"\x00" * 1024, b"garbage that is not an archive", b"PK\x03\x04" + b"\x00" * 60, b"\x1f\x8b\x08\x00" + b"\x00" * 20,
+               gzip.compress(b"not a tar file at all"), gzip.compress(b"\x00" * 10240)]
+
+
+def corruption_jobs(ctx, tag):
+    r = ctx.subrng(tag)
+    jobs = []
+    n_art = ctx.scale(3, 40)
+    per_job = 120
+    for a in range(n_art):
+        tree_seed = r.getrandbits(40)
+        # the artifact length is only known in the worker: positions are drawn as fractions and clipped there
+        specs = [("intact",)]
+        specs += [("raw", x.hex()) for x in RAW_FORMATS] + [("plain-tar",), ("xz",), ("no-audit",)]
+        specs += [("repack", k) for k in ("same", "other", "mode", "content", "link")]
+        specs += [("truncfrac", i) for i in range(0, 1400)] if a < 2 or ctx.tier == "thorough" else [("truncfrac", r.randrange(1400)) for _ in range(300)]
+        specs += [("flipfrac", r.random(), r.randrange(8)) for _ in range(ctx.scale(500, 2000))]
+        for i in range(0, len(specs), per_job):
+            jobs.append((os.path.join(scratch_dir(ctx), "dl-%s-%d-%d" % (tag, a, i)), tree_seed, specs[i:i + per_job]))
+    return jobs
+
+
+def judge_corruption(ctx, res, tag):
+    """oracle (iii) on one result of the download path"""
+    out, spec = res["out"], res["spec"]
+    if out == "failed:_Timeout":
+        ctx.skip("a download run hit the 30 s limit (machine load)")
+        return
+    ctx.case((tag, spec, res["expect"]), nontrivial=not res["identical"])
+    ctx.count("download_outcome", out)
+    ctx.count("download_input", spec[0])
+    case = {"kind": "corruption", "tree_seed": None, "spec": spec}
+    if out == "accepted":
+        if not (res["tree_ok"] and res["audit_ok"]):
+            ctx.violation("a %s artifact was accepted as package result although the extracted tree/audit differs from what was packed "
+                          "(tree identical: %s, audit identical: %s)" % (spec[0], res["tree_ok"], res["audit_ok"]), res,
+                          "corrupt-artifact-accepted")
+        elif res["recorded"] != res["expect"]:
+            ctx.violation("accepted download recorded result hash %r, packed tree has %r" % (res["recorded"], res["expect"]), res,
+                          "accepted-download-wrong-result-hash")
+    else:
+        if res["recorded"] is not None:
+            ctx.violation("download ended with %s but a result hash was recorded for the workspace" % out, res, "failed-download-recorded")
+        if spec[0] in ("intact", "plain-tar", "xz") or (spec[0] == "repack" and spec[1] == "same"):
+            ctx.violation("intact artifact (%s) was not accepted: %s" % (spec[0], out), res, "intact-artifact-rejected")
+
+
+def phase_deadline(ctx, frac):
+    return ctx.t0 + ctx.budget * frac
+
+
+def oracle_corruption(ctx, tag="corruption", frac=0.62):
+    """forked workers (own cwd / BobState each); stops at the phase deadline and records what was not run"""
+    import multiprocessing as mp
+    import time
+    deadline = phase_deadline(ctx, frac)
+    jobs = [j + (deadline,) for j in corruption_jobs(ctx, tag)]
+    out = []
+    planned = sum(len(j[2]) for j in jobs)
+    with mp.get_context("fork").Pool(min(16, os.cpu_count() or 4)) as pool:
+        it = pool.imap(corruption_worker, jobs, chunksize=1)
+        for job in jobs:
+            try:
+                results = it.next(timeout=max(1.0, deadline + 8 - time.time()))
+            except mp.TimeoutError:
+                pool.terminate()
+                break
+            for res in results:
+                res["tree_seed"] = job[1]
+                judge_corruption(ctx, res, tag)
+                out.append(res)
+    if len(out) < planned * 0.8:
+        ctx.skip("corruption stream: %d of %d planned runs (time budget / machine load)" % (len(out), planned))
+    return out
